@@ -431,8 +431,12 @@ Definition prog_ok (x : option (list Qc)) (y : list Qc) (e : option exn) (steps 
     def apply(self, w, o, rec):
         import traffic_weaver.rfa as R
         name = o["op"]
+        om = bool(o.get("omit"))       # rely on the documented defaults: leave out every optional argument that has its default value
         if name == "append":
-            w.append_one_sample(make_periodic=o["periodic"])
+            if om and not o["periodic"]:
+                w.append_one_sample()
+            else:
+                w.append_one_sample(make_periodic=o["periodic"])
         elif name in ("shift_x", "shift_y", "scale_x", "scale_y"):
             getattr(w, name)(o["v"])
         elif name in ("normalize_x", "normalize_y"):
@@ -440,11 +444,21 @@ Definition prog_ok (x : option (list Qc)) (y : list Qc) (e : option exn) (steps 
         elif name == "repeat":
             w.repeat(o["r"])
         elif name == "truncate_by_value":
-            w.truncate_by_value(o["l"], o["r"], o["lr"], o["rr"])
+            if om:
+                kw = {k_: True for k_, f_ in (("x_left_as_ratio", o["lr"]), ("x_right_as_ratio", o["rr"])) if f_}
+                w.truncate_by_value(o["l"], o["r"], **kw)
+            else:
+                w.truncate_by_value(o["l"], o["r"], o["lr"], o["rr"])
         elif name == "truncate_by_index":
-            w.truncate_by_index(o["start"], o["stop"])
+            if om and o["stop"] is None:
+                w.truncate_by_index(o["start"]) if o["start"] != 0 else w.truncate_by_index()
+            else:
+                w.truncate_by_index(o["start"], o["stop"])
         elif name == "recreate":
-            w.recreate_from_average(o["n"], rfa_class=rfa_units.cls_of(o["strategy"]), **rfa_units.kwargs_of(o))
+            if o.get("all_defaults"):
+                w.recreate_from_average(o["n"])          # the documented default strategy with its default parameters
+            else:
+                w.recreate_from_average(o["n"], rfa_class=rfa_units.cls_of(o["strategy"]), **rfa_units.kwargs_of(o))
         elif name == "integral_match":
             kw = {"alpha": o["alpha"]}
             if "strategy" in o:
@@ -453,17 +467,26 @@ Definition prog_ok (x : option (list Qc)) (y : list Qc) (e : option exn) (steps 
                 kw["fixed_points_in_x"] = o["fixed_values"]
             if "fixed_indices" in o:
                 kw["fixed_points_indices_in_x"] = o["fixed_indices"]
-            w.integral_match(target_function_integral_method=o["rt"], reference_function_integral_method=o["rr"], **kw)
+            if om and o["rt"] == "trapezoid" and o["rr"] == "rectangle":
+                w.integral_match(**kw)
+            elif om and o["rt"] == "trapezoid":
+                w.integral_match(reference_function_integral_method=o["rr"], **kw)
+            else:
+                w.integral_match(target_function_integral_method=o["rt"], reference_function_integral_method=o["rr"], **kw)
         elif name == "interpolate":
+            mkw = {} if (om and o["method"] == "linear") else {"method": o["method"]}
             if "n" in o:
-                w.interpolate(n=o["n"], method=o["method"])
+                w.interpolate(n=o["n"], **mkw) if not om else w.interpolate(o["n"], **mkw)
             elif "new_x" in o:
                 g = list(o["new_x"]) if o["as_list"] else np.array(o["new_x"], dtype=float)
-                w.interpolate(new_x=g, method=o["method"])
+                w.interpolate(new_x=g, **mkw)
             else:
                 w.interpolate(method=o["method"])
         elif name == "trend":
-            w.trend(poly(o["coef"]), normalized=o["normalized"])
+            if om and not o["normalized"]:
+                w.trend(poly(o["coef"]))
+            else:
+                w.trend(poly(o["coef"]), normalized=o["normalized"])
         elif name == "smooth":
             # record what FITPACK returns for this call: the model stores exactly that answer, evaluated at x
             import traffic_weaver.process as P
@@ -499,6 +522,11 @@ Definition prog_ok (x : option (list Qc)) (y : list Qc) (e : option exn) (steps 
             raise AssertionError(name)
 
     def query(self, w, o):
+        if o.get("omit") and o["step"] == 1:
+            if o["op"] == "slice_by_index":
+                return w.slice_by_index(o["start"], o["stop"]) if o["stop"] is not None else (w.slice_by_index(o["start"]) if o["start"] != 0 else w.slice_by_index())
+            kw = {k_: o[k_] for k_ in ("start", "stop") if o[k_] is not None}
+            return w.slice_by_value(**kw)
         if o["op"] == "slice_by_index":
             return w.slice_by_index(o["start"], o["stop"], o["step"])
         return w.slice_by_value(o["start"], o["stop"], o["step"])
@@ -526,6 +554,13 @@ Definition prog_ok (x : option (list Qc)) (y : list Qc) (e : option exn) (steps 
             out["ctor"] = exn_name(e)
             return out
         out["init"] = snapshot(w)
+        # a second object built from the very same caller data: nothing done to the first may show in it
+        try:
+            twin = (Weaver(None, list(c["y"]) if c["as_list"] else yin) if c["x_none"] else
+                    Weaver(list(c["x"]), list(c["y"])) if c["as_list"] else Weaver(xin, yin))
+            twin0 = snapshot(twin)["state"]
+        except Exception:
+            twin = None
         script = c.get("script")
         nsteps = len(script) if script is not None else c["len"]
         with warnings.catch_warnings():
@@ -544,6 +579,12 @@ Definition prog_ok (x : option (list Qc)) (y : list Qc) (e : option exn) (steps 
                         names = c.get("first_ops") or []
                         o = self.choose(rng, w, names[k] if k < len(names) else rng.choice(pool))
                         if o is not None:
+                            o["omit"] = rng.random() < 0.4
+                            if o["op"] == "recreate" and o["strategy"] == "expadapt" and rng.random() < 0.5:
+                                # the documented default: ExpAdaptiveRFA(alpha=1.0, beta=0.5, adaptive_smooth=1.0, exp=2.0)
+                                o2 = dict(o, alpha=1.0, a=None, beta=0.5, smooth=1.0, exp=2.0)
+                                if adaptive_stable(o2, np.asarray(w.y, dtype=float), rng):
+                                    o = dict(o2, all_defaults=True)
                             break
                     if o is None:
                         continue
@@ -577,6 +618,10 @@ Definition prog_ok (x : option (list Qc)) (y : list Qc) (e : option exn) (steps 
                     or any(k_ != "ndarray" for k_ in st["kinds"]) or min(len(s) for s in st["state"] if s is not None) < 4
                 if bad_state:
                     break   # nothing sensible can follow (the oracle judges this step)
+        if twin is not None:
+            caller_ok = np.array_equal(xin, cx) and np.array_equal(yin, cy)
+            # (if the caller's arrays themselves were modified that is reported per step; the twin shares them by design)
+            out["twin_changed"] = bool(caller_ok and snapshot(twin)["state"] != twin0)
         return out
 
     # ------------------------------------------------------------------ model side
@@ -676,6 +721,9 @@ Definition prog_ok (x : option (list Qc)) (y : list Qc) (e : option exn) (steps 
         if o["ctor"]:
             fail("C09", "ctor-raises", "constructor raised %s on valid data" % o["ctor"])
             return F
+        if o.get("twin_changed"):
+            fail("C09" if "C09" in self.aspects else sorted(self.aspects)[0], "twin-changed",
+                 "a second Weaver built from the same data changed although only the first one was operated on")
         reshaped = False
         expect = [np.array(c["x"], dtype=float) if not c["x_none"] else np.arange(len(c["y"]), dtype=float), np.array(c["y"], dtype=float)]
         orig0 = [list(expect[0]), list(expect[1])]
